@@ -37,6 +37,10 @@ pub struct ProbeAgg {
     pub sleeps: u64,
     pub yields: u64,
     pub max_partitions: u64,
+    #[serde(default)]
+    pub clock_reads: u64,
+    #[serde(default)]
+    pub clock_ticks: u64,
 }
 
 impl ProbeAgg {
@@ -59,6 +63,8 @@ impl ProbeAgg {
         self.sender_clones += p.sender_clones as u64;
         self.sleeps += p.sleeps as u64;
         self.yields += p.yields as u64;
+        self.clock_reads += p.clock_reads as u64;
+        self.clock_ticks += p.clock_ticks as u64;
         if p.recv_on_empty > 0 {
             self.execs_recv_on_empty += 1;
         }
@@ -89,6 +95,8 @@ impl ProbeAgg {
         self.execs_recv_before_all_spawned += o.execs_recv_before_all_spawned;
         self.sleeps += o.sleeps;
         self.yields += o.yields;
+        self.clock_reads += o.clock_reads;
+        self.clock_ticks += o.clock_ticks;
         self.max_partitions = self.max_partitions.max(o.max_partitions);
     }
 }
